@@ -37,6 +37,11 @@ type provCloseSc struct {
 	Workers    int    `json:"workers"`
 	DSFault    string `json:"ds_fault,omitempty"` // "" | close-time: every datastore call fails once the first Close call has been started | always: every mutation fails
 	Offline    bool   `json:"offline,omitempty"`  // the router finds no peers: the node is offline and its connectivity checker keeps probing
+	// BadOption != "": New is called with an option set it must refuse - "conn-interval-0" (refused by the connectivity checker,
+	// after the keystore and the datastore New makes for itself exist), "offline-delay-neg" (same point), "workers" (refused by
+	// the option check), "opt-error" (an option that returns an error), "no-router"; OwnStores: New is given no datastore
+	BadOption string `json:"bad_option,omitempty"`
+	OwnStores bool   `json:"own_stores,omitempty"`
 }
 
 type gateRouter struct {
@@ -103,9 +108,9 @@ func TestVerif_C14_SweepingProvider(t *testing.T) {
 		Rule: "rapid: provider.New over a router with a gate (12 peers), with and without a reprovide schedule, 1-4 workers, 0-4 keys started; optionally the instance's 1st-9th closest-peers lookup (connectivity probe, prefix-length " +
 			"measurement or provide exploration, whichever comes) is held at the gate, by a router that returns on context cancellation or one that does not; 1-3 Close calls started one after the other (each once the previous one returned or is " +
 			"seen blocked), 0-3 further API calls in between, then the gate is released; the datastore healthy, failing every call from the first Close on, or failing always; the node online or offline (connectivity checker probing); real time, schedule owned through the gate; oracle: a Close call that has returned leaves no goroutine of the provider, its connectivity checker or its default " +
-			"keystore, every call returns after the release, calls after Close do not panic; non-trivial = a lookup was held while a Close call was pending",
+			"keystore, every call returns after the release, calls after Close do not panic; in 12% of the cases New is given an option set it must refuse (at the option check, or at the connectivity checker after its own keystore and datastore exist) and must leave none of those goroutines; non-trivial = a lookup was held while a Close call was pending, or a constructor failed",
 		Gen: func(t *rapid.T) provCloseSc {
-			return provCloseSc{
+			sc := provCloseSc{
 				NoSchedule: verifsim.Chance(t, "noSchedule", 25),
 				Keys:       rapid.SampledFrom([]int{0, 1, 2, 3, 4, 4}).Draw(t, "keys"),
 				// lookups 0-4 are the connectivity probe and the prefix-length measurement, the provide explorations come after
@@ -117,6 +122,11 @@ func TestVerif_C14_SweepingProvider(t *testing.T) {
 				DSFault:   rapid.SampledFrom([]string{"", "", "close-time", "close-time", "always"}).Draw(t, "dsFault"),
 				Offline:   verifsim.Chance(t, "offline", 25),
 			}
+			if verifsim.Chance(t, "bad", 12) {
+				sc.BadOption = rapid.SampledFrom([]string{"conn-interval-0", "conn-interval-0", "offline-delay-neg", "workers", "opt-error", "no-router"}).Draw(t, "badOption")
+				sc.OwnStores = rapid.Bool().Draw(t, "ownStores")
+			}
+			return sc
 		},
 		Run: func(t *testing.T, sc provCloseSc) (res verifsim.Result) {
 			provCloseMu.Lock()
@@ -139,6 +149,41 @@ func TestVerif_C14_SweepingProvider(t *testing.T) {
 			interval := time.Hour
 			if sc.NoSchedule {
 				interval = 0
+			}
+			if sc.BadOption != "" {
+				opts := []Option{WithReprovideInterval(interval), WithReplicationFactor(4), WithMaxWorkers(sc.Workers), WithDedicatedPeriodicWorkers(0), WithDedicatedBurstWorkers(0),
+					WithPeerID(peer.ID(pp.IDs[63])), WithMessageSender(nopSender{}),
+					WithSelfAddrs(func() []ma.Multiaddr { return []ma.Multiaddr{ma.StringCast("/ip4/8.1.1.1/tcp/4001")} })}
+				if sc.BadOption != "no-router" {
+					opts = append(opts, WithRouter(router))
+				}
+				if !sc.OwnStores {
+					opts = append(opts, WithDatastore(dstore))
+				}
+				switch sc.BadOption {
+				case "conn-interval-0":
+					opts = append(opts, WithConnectivityCheckOnlineInterval(0))
+				case "offline-delay-neg":
+					opts = append(opts, WithOfflineDelay(-time.Second))
+				case "workers":
+					opts = append(opts, WithMaxWorkers(1), WithDedicatedPeriodicWorkers(1), WithDedicatedBurstWorkers(1))
+				case "opt-error":
+					opts = append(opts, func(*config) error { return errors.New("injected option error") })
+				}
+				close(router.release)
+				p, err := New(opts...)
+				if err == nil {
+					// (an option set this version accepts: not a failed constructor)
+					p.Close()
+					res.Class("bad-option-accepted-" + sc.BadOption)
+					return
+				}
+				if left := verifsim.GoroutinesMatching(300*time.Millisecond, provSubs...); len(left) > 0 {
+					res.Fail("failed-constructor-clean", "C14/provider/goroutine-left-after-failed-new", "%d goroutine(s) left after New failed (%s, own stores %v: %v):\n%s", len(left), sc.BadOption, sc.OwnStores, err, left[0])
+				}
+				res.Class("failed-constructor-" + sc.BadOption)
+				res.NonTrivial = true
+				return
 			}
 			prov, err := New(WithReprovideInterval(interval), WithReplicationFactor(4), WithMaxWorkers(sc.Workers), WithDedicatedPeriodicWorkers(0), WithDedicatedBurstWorkers(0),
 				WithPeerID(peer.ID(pp.IDs[63])), WithRouter(router), WithMessageSender(nopSender{}), WithDatastore(dstore),
